@@ -244,9 +244,121 @@ def check_stats_case(ctx, info):
     check_stats(ctx, info)
 
 
+# ---------------------------------------------------------------------------
+# the report vs. a dataset that is actually produced
+# ---------------------------------------------------------------------------
+@st.composite
+def produced_cases(draw):
+    return {"size": [draw(st.integers(1, 40)) for _ in range(3)],
+            "ratios": [draw(st.sampled_from([1, 1, 2, 4])) for _ in range(3)],
+            "target": draw(st.sampled_from([2, 4, 8, 16])),
+            "dtype": draw(st.sampled_from(sorted(ITEMSIZE))),
+            "channels": draw(st.integers(1, 3)),
+            "sharded": draw(st.integers(0, 3)) == 0,
+            "seed": draw(st.integers(0, 2 ** 20))}
+
+
+def check_produced(ctx, case):
+    import os
+    from neuroglancer_scripts import (downscaling, dyadic_pyramid,
+                                      volume_reader)
+    from neuroglancer_scripts.scripts import scale_stats
+    from vlib import datasets as ds
+    sharded = case["sharded"] and len(set(case["ratios"])) == 1
+    info = ds.make_info(case["dtype"], case["channels"], [{
+        "size": list(case["size"]),
+        "resolution": [1000.0 * r for r in case["ratios"]],
+        "voxel_offset": [0, 0, 0], "encoding": "raw"}])
+    if sharded:
+        info["scales"][0]["sharding"] = ds.sharding_dict(1, 1, 0)
+    dyadic_pyramid.fill_scales_for_dyadic_pyramid(
+        info, target_chunk_size=case["target"], max_scales=4)
+    d = ctx.tmpdir("prod")
+    try:
+        pio = ds.new_dataset(info, {"type": "sharded", "strategy":
+                                    "in memory"} if sharded else
+                             {"type": "file", "flat": True, "gzip": False}, d)
+        X, Y, Z = case["size"]
+        C = case["channels"]
+        vol = np.random.default_rng(case["seed"]).integers(
+            0, 200, size=(X, Y, Z, C)).astype(case["dtype"])
+        volume_reader.volume_to_precomputed(pio, vol)
+        ds.close_accessor(pio)
+        pio = ds.open_dataset(d, {"flat": True, "gzip": False})
+        dyadic_pyramid.compute_dyadic_scales(
+            pio, downscaling.get_downscaler("stride"))
+        ds.close_accessor(pio)
+        buf = io.StringIO()
+        with contextlib.redirect_stdout(buf):
+            scale_stats.show_scale_file_info(d)
+        lines = buf.getvalue().splitlines()
+        pio = ds.open_dataset(d)
+        tot_chunks = tot_bytes = 0
+        partial = False
+        for line, sc in zip(lines, info["scales"]):
+            m = _LINE.match(line)
+            if not m or m.group("key") != sc["key"]:
+                ctx.fail("unparseable report line %r" % line)
+            reported = int(m.group("chunks").replace(",", ""))
+            nbytes = 0
+            nchunks = 0
+            for cc in ds.chunk_coords_list(sc["size"], sc["chunk_sizes"][0]):
+                arr = pio.read_chunk(sc["key"], cc)
+                nbytes += arr.nbytes
+                nchunks += 1
+            if not sharded:
+                files = [f for f in os.listdir(os.path.join(d, sc["key"]))]
+                if len(files) != nchunks:
+                    ctx.fail("scale %s: %d chunk files on disk, %d chunks on "
+                             "the grid" % (sc["key"], len(files), nchunks))
+            if reported != nchunks:
+                ctx.fail("scale %s: the report says %d chunks, the conversion "
+                         "wrote %d (size %s chunk %s)" % (
+                             sc["key"], reported, nchunks, sc["size"],
+                             sc["chunk_sizes"][0]))
+            p = readable_problem(m.group("size"), nbytes)
+            if p:
+                ctx.fail("scale %s: reported size vs %d decoded bytes: %s" % (
+                    sc["key"], nbytes, p))
+            tot_chunks += nchunks
+            tot_bytes += nbytes
+            if any(s_ % c for s_, c in zip(sc["size"], sc["chunk_sizes"][0])):
+                partial = True
+        m = _TOTAL.match(lines[-1])
+        if not m or int(m.group("chunks").replace(",", "")) != tot_chunks:
+            ctx.fail("total chunks reported %r, written %d" % (lines[-1],
+                                                              tot_chunks))
+        p = readable_problem(m.group("size"), tot_bytes)
+        if p:
+            ctx.fail("total size vs %d decoded bytes: %s" % (tot_bytes, p))
+        return len(info["scales"]), partial
+    finally:
+        ctx.rmtree(d)
+
+
+def run_produced(ctx, n):
+    def check(ctx, case):
+        nscales, partial = check_produced(ctx, case)
+        ctx.record(case, nscales >= 2 and partial,
+                   ["scales%d" % nscales, case["dtype"],
+                    "sharded" if case["sharded"] else "files"])
+    ctx.run_hypothesis(produced_cases(), check, n)
+
+
+def replay(ctx, case):
+    if "count" in case:
+        check_count(ctx, case)
+    elif "ratios" in case:
+        check_produced(ctx, case)
+    else:
+        check_stats(ctx, case)
+
+
 SUBS = [
     Sub("fmt_sweep", run_sweep, check_count, quick=1, thorough=1, shards=14,
         sweep=True),
     Sub("fmt_hyp", run_hyp, check_count, quick=6000, thorough=200000),
     Sub("stats", run_stats, check_stats_case, quick=600, thorough=20000),
+    Sub("produced", run_produced, check_produced, quick=80, thorough=2000,
+        min_per_shard=5),
 ]
